@@ -622,6 +622,32 @@ func (fl *Flow) edgeLabels(fs *FuncSrc, c *fnCFG, b *cfg.Block, succ int) []stri
 		return nil
 	}
 	truth := succ == 0
+	// `ok := <expr>` immediately followed by `if ok` / `if !ok`: the facts are those of <expr>
+	// (only when the definition is the node right before the condition in the same block, so
+	// nothing can have changed in between)
+	if len(b.Nodes) >= 2 {
+		inner := ast.Unparen(cond)
+		neg := false
+		if u, ok := inner.(*ast.UnaryExpr); ok && u.Op == token.NOT {
+			inner, neg = ast.Unparen(u.X), true
+		}
+		if id, ok := inner.(*ast.Ident); ok {
+			if as, ok := b.Nodes[len(b.Nodes)-2].(*ast.AssignStmt); ok && len(as.Lhs) == 1 && len(as.Rhs) == 1 && (as.Tok == token.DEFINE || as.Tok == token.ASSIGN) {
+				if lid, ok := as.Lhs[0].(*ast.Ident); ok && lid.Name == id.Name && fs.Info().ObjectOf(lid) == fs.Info().ObjectOf(id) {
+					if t := fs.Info().TypeOf(as.Rhs[0]); t != nil {
+						if bt, ok := t.Underlying().(*types.Basic); ok && bt.Info()&types.IsBoolean != 0 {
+							if _, isCall := ast.Unparen(as.Rhs[0]).(*ast.CallExpr); !isCall {
+								cond = as.Rhs[0]
+								if neg {
+									cond = &ast.UnaryExpr{Op: token.NOT, X: &ast.ParenExpr{X: as.Rhs[0]}, OpPos: as.Rhs[0].Pos()}
+								}
+							}
+						}
+					}
+				}
+			}
+		}
+	}
 	// switch case?  successor 0 is the case body
 	if cc, ok := b.Succs[0].Stmt.(*ast.CaseClause); ok && b.Succs[0].Kind == cfg.KindSwitchCaseBody {
 		isCaseExpr := false
